@@ -253,6 +253,9 @@ class Arr:
     def argmin(self, axis=None):
         return reduce_arr(self, "argmin", axis, False)
 
+    def argmax(self, axis=None):
+        return reduce_arr(self, "argmax", axis, False)
+
     # -------------------------------------------------------------- shape ops
     def transpose(self, *axes):
         if len(axes) == 1 and isinstance(axes[0], (tuple, list)):
